@@ -324,7 +324,7 @@ var c10Stop bool
 func c10(ctx *core.Ctx) {
 	quietLogs()
 	c10Stop = false
-	ctx.Rule("crash points enumerated completely: panic in each of 2 container / 2 service / 2 route filters before and after passing control, in the handler before / between / after its writes and inside ReadEntity (a gzip-declared request body whose Read panics), in an If-condition, and (routing-failure request) in container filters and the custom error handler; x recovery {on, off (set explicitly, or left at the default)} x coding {none, gzip, deflate} (container switch or route override) x provider {sync.Pool, bounded(1), custom} x entry {Dispatch, ServeHTTP} x filters writing output or not x custom (answers 503 with a header of its own) / default recover handler x now and then (in sequences) the same panicking request first from a client whose connection fails on every body write x panic value kind {pointer, string, error, runtime error, http.ErrAbortHandler, typed-nil error, typed-nil Stringer, Stringer whose String panics, restful.ServiceError by value}; the obsolete package variable restful.DoNotRecover set in every 7th case (value kinds on the sync.Pool / no-marker slice). Monitors: recover() around the entry, recording RecoverHandler, compressor ledger, probe requests replayed after every panic, Add+Remove afterwards (needs the write lock). 300 containers whose recovery switch and recover handler are set from two goroutines at once (then a panicking request). Then sequences of 20 mixed panicking/normal requests per container. Non-trivial = every crash case; distinct by the full cell.")
+	ctx.Rule("crash points enumerated completely: panic in each of 2 container / 2 service / 2 route filters before and after passing control, in the handler before / between / after its writes and inside ReadEntity (a gzip-declared request body whose Read panics), in an If-condition, and (routing-failure request) in container filters and the custom error handler; x recovery {on, off (set explicitly, or left at the default)} x coding {none, gzip, deflate} (container switch or route override) x provider {sync.Pool, bounded(1), custom} x entry {Dispatch, ServeHTTP} x filters writing output or not x custom (answers 503 with a header of its own) / default recover handler x now and then (in sequences) the same panicking request first from a client whose connection fails on every body write x panic value kind {pointer, string, error, runtime error, http.ErrAbortHandler, typed-nil error, typed-nil Stringer, Stringer whose String panics, restful.ServiceError by value}; the obsolete package variable restful.DoNotRecover set in every 7th case (value kinds on the sync.Pool / no-marker slice). Monitors: recover() around the entry, recording RecoverHandler, compressor ledger, probe requests replayed after every panic, Add+Remove afterwards (needs the write lock). 3000 containers whose recovery switch and recover handler are set from two goroutines at once (then a panicking request). Then sequences of 20 mixed panicking/normal requests per container. Non-trivial = every crash case; distinct by the full cell.")
 	ctx.Assume("HandleWithFilter is excluded: the property speaks of routed dispatch",
 		"panic values are pointers so that 'the same value' is decided by identity")
 	defer func() {
@@ -418,7 +418,7 @@ func c10(ctx *core.Ctx) {
 // c10ConcurrentConfig: start-up code that configures one container from two goroutines (one switches recovery on, the other
 // installs the recover handler; the calls touch different settings). Once both have returned, a panic is recovered by that handler.
 func c10ConcurrentConfig(ctx *core.Ctx, ci int) {
-	for rep := 0; rep < 300; rep++ {
+	for rep := 0; rep < 3000; rep++ {
 		c := restful.NewContainer()
 		var called int32
 		ws := new(restful.WebService).Path("/cc")
